@@ -6208,15 +6208,25 @@ class SSHServerConnection(SSHConnection):
 
         """
 
+        prev_options = self._key_options, self._cert_options
+
         key = ((await self._validate_client_certificate(username, key_data)) or
                (await self._validate_client_public_key(username, key_data)))
 
         if key is None:
-            return False
+            result = False
         elif msg:
-            return key.verify(String(self._session_id) + msg, signature)
+            result = key.verify(String(self._session_id) + msg, signature)
         else:
-            return True
+            result = True
+
+        if not (msg and result):
+            # Only a key or certificate which has been used to sign a
+            # request decides which restrictions apply to the session,
+            # not one which was merely queried or failed to verify
+            self._key_options, self._cert_options = prev_options
+
+        return result
 
     def password_auth_supported(self) -> bool:
         """Return whether or not password authentication is supported"""
